@@ -10,9 +10,10 @@ import (
 	"github.com/ipfs/go-cid"
 	"github.com/ipld/go-ipld-prime"
 	cidlink "github.com/ipld/go-ipld-prime/linking/cid"
+	"github.com/libp2p/go-libp2p/core/peer"
 
 	"github.com/ipfs/go-graphsync"
-	"github.com/ipfs/go-graphsync/dedupkey"
+	"github.com/ipfs/go-graphsync/cidset"
 )
 
 // c20: several concurrent requests between one requestor and one responder
@@ -24,7 +25,9 @@ type c20 struct {
 	reqs  []*Req
 	sels  []ipld.Node
 	descs []string
-	inKey map[graphsync.RequestID]bool // requests in the named deduplication scope
+	inKey map[graphsync.RequestID]bool // requests in the named deduplication scope (they use the alternate store)
+	alt   *SimStore                    // the requestor's alternate store (persistence option "alt")
+	altRq map[cid.Cid]bool             // what it holds initially
 	// one sibling may be disturbed (its caller cancels it, or pauses it for good) while the
 	// others run: it is left out of the comparison, the others must not notice
 	victim   int // -1: none
@@ -58,6 +61,26 @@ func (s *c20) Build(w *World) {
 	n := 2 + t.Draw(3)
 	// some runs put (most of) the requests into one named deduplication scope
 	keyed := t.Chance(300)
+	if keyed {
+		// the named scope is a persistence option: its requests read and write another store
+		s.alt = NewSimStore(w, "A2")
+		s.altRq = map[cid.Cid]bool{}
+		altPm := []int{0, 200, 500}[t.Draw(3)]
+		for _, c := range s.dag.Order {
+			if t.Chance(altPm) {
+				s.altRq[c] = true
+				s.alt.Put(c, s.dag.Blocks[c])
+			}
+		}
+		if err := s.a.GS.RegisterPersistenceOption("alt", s.alt.LinkSystem()); err != nil {
+			panic(err)
+		}
+		s.a.OnOutgoingRequest = func(p peer.ID, r graphsync.RequestData, a graphsync.OutgoingRequestHookActions) {
+			if s.inKey[r.ID()] {
+				a.UsePersistenceOption("alt")
+			}
+		}
+	}
 	for i := 0; i < n; i++ {
 		root := s.dag.Root.Cid
 		if t.Chance(500) {
@@ -70,16 +93,28 @@ func (s *c20) Build(w *World) {
 		s.sels = append(s.sels, sel)
 		s.descs = append(s.descs, fmt.Sprintf("%s@%s", desc, shortCid(root)))
 		var exts []graphsync.ExtensionData
-		if keyed && t.Chance(750) {
-			k, _ := dedupkey.EncodeDedupKey("shared")
-			exts = append(exts, graphsync.ExtensionData{Name: graphsync.ExtensionDeDupByKey, Data: k})
-			s.descs[len(s.descs)-1] += "+key"
+		inKey := keyed && t.Chance(750)
+		if inKey {
+			s.descs[len(s.descs)-1] += "+alt"
+			if t.Chance(500) {
+				// ... and tells the responder which blocks that store already holds
+				set := cid.NewSet()
+				for _, c := range s.dag.Order {
+					if s.altRq[c] && t.Chance(600) {
+						set.Add(c)
+					}
+				}
+				if set.Len() > 0 {
+					exts = append(exts, graphsync.ExtensionData{Name: graphsync.ExtensionDoNotSendCIDs, Data: cidset.EncodeCidSet(set)})
+					s.descs[len(s.descs)-1] += fmt.Sprintf("+dnsc%d", set.Len())
+				}
+			}
 		}
 		s.reqs = append(s.reqs, s.a.NewReq(fmt.Sprintf("r%d", i), s.b, cidlink.Link{Cid: root}, sel, exts...))
 		if s.inKey == nil {
 			s.inKey = map[graphsync.RequestID]bool{}
 		}
-		s.inKey[s.reqs[len(s.reqs)-1].ID] = len(exts) > 0
+		s.inKey[s.reqs[len(s.reqs)-1].ID] = inKey
 	}
 	s.victim = -1
 	if t.Chance(400) {
@@ -169,7 +204,11 @@ func isSubsequence(sub, seq []Visit) (int, bool) {
 
 func (s *c20) Final(w *World) *Violation {
 	// R3a: whatever the requestor stored is the block its CID names
-	for _, c := range s.a.Store.Commits {
+	commits := append([]CommitRec(nil), s.a.Store.Commits...)
+	if s.alt != nil {
+		commits = append(commits, s.alt.Commits...)
+	}
+	for _, c := range commits {
 		if want, ok := s.dag.Blocks[c.Cid]; !ok || sha256.Sum256(want) != c.Hash {
 			return &Violation{Property: "C20", Rule: "R3", Signature: "stored-wrong-bytes", Detail: fmt.Sprintf("block stored under %s at step %d is not the block of that CID", shortCid(c.Cid), c.Step)}
 		}
@@ -182,18 +221,23 @@ func (s *c20) Final(w *World) *Violation {
 			return &Violation{Property: "C20", Rule: "R0", Signature: "not-terminated", Detail: r.Label + " did not finish in a fault-free run"}
 		}
 		sub := &DAG{Root: r.Root, Blocks: s.dag.Blocks, Order: s.dag.Order, Kids: s.dag.Kids}
+		// the store this request works against
+		split, store := s.split, s.a.Store
+		if s.inKey[r.ID] {
+			split, store = Split{Rq: s.altRq, Rs: s.split.Rs}, s.alt
+		}
 		csel, _ := CanonicalSelector(s.sels[i])
-		if !s.split.Rs[r.Root.Cid] {
+		if !split.Rs[r.Root.Cid] {
 			continue // content-not-found envelope, as in C02
 		}
-		if SkipCountDesync(sub, csel, s.split) || RefLoadsPathTwice(sub, csel, s.split) {
+		if SkipCountDesync(sub, csel, split) || RefLoadsPathTwice(sub, csel, split) {
 			w.Probe("c20-skip-known-c02-input-class")
 			continue
 		}
-		solo := Ref(sub.Root, csel, SplitResolver(sub, s.split), 0)
+		solo := Ref(sub.Root, csel, SplitResolver(sub, split), 0)
 		// the most a request can legitimately see: every block either peer holds
 		all := Ref(sub.Root, csel, func(path string, c cid.Cid) ([]byte, bool) {
-			if s.split.Rq[c] || s.split.Rs[c] {
+			if split.Rq[c] || split.Rs[c] {
 				return s.dag.Blocks[c], true
 			}
 			return nil, false
@@ -238,11 +282,11 @@ func (s *c20) Final(w *World) *Violation {
 					}
 				}
 			}
-			respHas := parentReach && s.split.Rs[c]
-			if !s.split.Rq[c] && !respHas {
+			respHas := parentReach && split.Rs[c]
+			if !split.Rq[c] && !respHas {
 				allowed[shortCid(c)+"@"+path] = true
 			}
-			if s.split.Rq[c] || s.split.Rs[c] {
+			if split.Rq[c] || split.Rs[c] {
 				reachRecs = append(reachRecs, struct {
 					path  string
 					reach bool
@@ -258,7 +302,7 @@ func (s *c20) Final(w *World) *Violation {
 		}
 		// stored: everything the solo run obtains from the responder
 		for _, l := range solo.Loads {
-			if l.Found && !s.split.Rq[l.Cid] && !s.a.Store.Has(l.Cid) {
+			if l.Found && !split.Rq[l.Cid] && !store.Has(l.Cid) {
 				return &Violation{Property: "C20", Rule: "R3", Signature: "not-stored", Detail: fmt.Sprintf("%s: block %s not in the requestor store", r.Label, shortCid(l.Cid))}
 			}
 		}
